@@ -218,6 +218,8 @@ func ruleCumulativeRetains(c *Ctx, ix *PkgIndex, rule string) {
 }
 
 func c02(c *Ctx) {
+	c.FollowDelegates = true
+	defer func() { c.FollowDelegates = false }()
 	ax := c.Index("sdk/metric", aggPkg)
 	mx := c.Index("sdk/metric", sdkMetric)
 	if ax == nil || mx == nil {
